@@ -61,7 +61,8 @@ def check_arena(run, db):
             n += 1
             inst = '%s [%s]' % (d.display, db.config)
             evs = list(d.events())
-            st = [e for e in evs if top_term(e) is not None and top_term(e).get('short') == 'shrink_to_fit']
+            # the cache is drained by shrink_to_fit() or directly by the cache base's do_shrink_to_fit(allocator)
+            st = [e for e in evs if top_term(e) is not None and top_term(e).get('short') in ('shrink_to_fit', 'do_shrink_to_fit')]
             de = [e for e in evs if top_term(e) is not None and top_term(e).get('short') == 'deallocate_block']
             loops = [b for b in d.blocks.values() if b.get('term') and b['term'].get('cls') in ('WhileStmt', 'ForStmt')]
             probs = []
